@@ -20,8 +20,8 @@ NKEYS = 6
 
 # ------------------------------------------------------------------ generator
 class Gen:
-    def __init__(self, rng, nmutex, heavy):
-        self.rng, self.nmutex, self.heavy = rng, nmutex, heavy
+    def __init__(self, rng, nmutex, heavy, safe=False):
+        self.rng, self.nmutex, self.heavy, self.safe = rng, nmutex, heavy, safe
 
     def local_op(self, allowed, depth, held):
         """one thread-local instruction (list of tokens); allowed = set of exception ids that may
@@ -64,7 +64,7 @@ class Gen:
         inner = 'all' if not cs else ('all' if allowed == 'all' else set(allowed) | set(cs))
         body = self.block(r.randrange(0, 5), inner, depth + 1, held, throwy=True)
         handler = self.block(r.randrange(0, 3), allowed, depth + 1, held)
-        if any(t[0] == '[' or t.startswith('w4') for t in body) and r.random() < .9:
+        if any(t[0] == '[' or t.startswith('w4') for t in body) and (self.safe or r.random() < .9):
             # before repair D3 a handled exception leaves `active` set and the enclosing try would fire
             # again on the stale object when its body ends normally (C07's business): an empty try resets it
             body += ['[', ']', '}']
@@ -104,11 +104,11 @@ class Gen:
         return toks
 
 
-def gen_case(rng, nworkers=None, size=None, heavy=False):
+def gen_case(rng, nworkers=None, size=None, heavy=False, safe=False):
     nworkers = nworkers or rng.choice([1, 2, 2, 3, 3, 4, 5, 7, 8, 12, 15, 16])
     nmutex = rng.choice([1, 1, 2, 3, 4])
     size = size or rng.choice([4, 8, 14, 22])
-    g = Gen(rng, nmutex, heavy)
+    g = Gen(rng, nmutex, heavy, safe)
     progs = []
     # main: spawn everybody (own work in between), then join in some order, peek after join
     main = []
@@ -330,19 +330,47 @@ def run(ctx):
         'conservative stack scanning may postpone a finalisation: collector events are compared as cumulative sets',
     ]
     ctx.coq()
-    drv = ctx.build_driver('Threads')
     h = ctx.build_harness('threads.c')
     env = dict(os.environ, H_TIMEOUT='40')
-    run_impl = lambda cs: ctx.run_lines(h, cs, env=env, timeout=3000)[1]
-    run_model = lambda cs: ctx.run_lines(drv, cs, args=['model'])[1]
-    run_spec = lambda cs: ctx.run_lines(drv, cs, args=['spec'])[1]
+    stats = ctx.cov.setdefault('harness_counters', {'cases_with_trylock_contention': 0, 'trylock_misses': 0,
+                                                    'max_threads_simultaneously_running': 0, 'maxpar_histogram': {}})
+
+    def run_impl(cs):
+        out = ctx.run_lines(h, cs, env=env, timeout=3000)[1]
+        for o in out:
+            m = re.search(r'miss=(\d+) maxpar=(\d+)', o)
+            if m:
+                ms, mp = int(m.group(1)), int(m.group(2))
+                stats['trylock_misses'] += ms
+                stats['cases_with_trylock_contention'] += 1 if ms else 0
+                stats['max_threads_simultaneously_running'] = max(stats['max_threads_simultaneously_running'], mp)
+                stats['maxpar_histogram'][str(mp)] = stats['maxpar_histogram'].get(str(mp), 0) + 1
+        return out
+    try:
+        drv = ctx.build_driver('Threads')
+    except vlib.ModelBuildError as e:
+        # the machine can no longer be regenerated from the source (a Generated.v pattern is gone): the
+        # property's own oracle needs no model — search for a concrete failing input with programs that
+        # cannot abort whatever the exception rules are
+        drv = None
+        ctx.notes.append('model build error: %s' % e)
+        ctx.violation('model', {'kind': 'the Coq model no longer builds against coq/Generated.v regenerated from the source',
+                                'detail': str(e)[-3000:], 'theorem_or_file': 'Extract_Threads.v / Generated.v'},
+                      no_failing_input=True)
+    if drv:
+        run_model = lambda cs: ctx.run_lines(drv, cs, args=['model'])[1]
+        run_spec = lambda cs: ctx.run_lines(drv, cs, args=['spec'])[1]
+    else:
+        run_model = None
+        run_spec = lambda cs: [''] * len(cs)
     d = vlib.Differential(ctx, 'threads', run_impl, run_model, run_spec, oracle, corr, nontrivial)
+    safe = drv is None
 
     def usable(cases):
         """drop cases in which the model aborts / gets stuck (out of contract), and check that the
         machine's result does not depend on the schedule (sanity of the isolation theorem)"""
-        if not cases:
-            return []
+        if not cases or not drv:
+            return cases
         m1 = run_model(cases)
         m2 = ctx.run_lines(drv, cases, args=['sched2'])[1]
         sp = run_spec(cases)
@@ -352,6 +380,11 @@ def run(ctx):
                 ctx.cov['filtered_out'] = ctx.cov.get('filtered_out', 0) + 1
                 continue
             if a != b or a != s:
+                if getattr(ctx, 'proof_broken', None):
+                    # the theorems no longer hold for the regenerated parameters: expected, keep searching
+                    ctx.cov['schedule_dependent_model_cases'] = ctx.cov.get('schedule_dependent_model_cases', 0) + 1
+                    keep.append(c)
+                    continue
                 ctx.notes.append('machine result depends on the schedule (contradicts isolation theorem): ' + c[:300])
                 ctx.violation('model_schedule', {'kind': 'extracted machine gives schedule-dependent results',
                                                  'theorem_or_file': 'Properties_C13.v isolation', 'case': c,
@@ -372,16 +405,16 @@ def run(ctx):
         return
     d.feed(usable(CORPUS), 'corpus')
     if quick:
-        plan = [(None, None, False)] * 150 + [(16, 8, False)] * 12 + [(4, 14, True)] * 8 + [(2, 22, True)] * 8
+        plan = [(None, None, False)] * 1000 + [(16, 8, False)] * 60 + [(4, 14, True)] * 40 + [(2, 22, True)] * 40
     else:
         plan = [(n, None, False) for n in range(1, 17) for _ in range(500)] + [(n, 14, True) for n in range(1, 17) for _ in range(20)]
-    cases = usable([gen_case(ctx.rng, n, s, hv) for (n, s, hv) in plan])
+    cases = usable([gen_case(ctx.rng, n, s, hv, safe) for (n, s, hv) in plan])
     for i in range(0, len(cases), 100):
         d.feed(cases[i:i + 100])
     ctx.cov['thread_counts'] = sorted(set(c.count('|') - 1 for c in cases))
 
     def extra(dd):
-        more = usable([gen_case(ctx.rng, None, None, i % 4 == 0) for i in range(600)])
+        more = usable([gen_case(ctx.rng, None, None, i % 4 == 0, safe) for i in range(600)])
         for i in range(0, len(more), 100):
             dd.feed(more[i:i + 100])
     d.report(extra)
